@@ -15,9 +15,10 @@ PROPERTY = "C37"
 LEVEL = "model_checking"
 ENCODED = ["twisted.conch.ssh.common:NS", "twisted.conch.ssh.common:getNS",
            "twisted.conch.ssh.common:MP", "twisted.conch.ssh.common:getMP"]
-BOUNDS = {"quick": {"s": 4, "r": 2, "bits": 64, "s2": 2}, "thorough": {"s": 8, "r": 3, "bits": 512, "s2": 4}}
+BOUNDS = {"quick": {"s": 4, "r": 2, "bits": 64, "s2": 2, "txt": 2}, "thorough": {"s": 8, "r": 3, "bits": 512, "s2": 4, "txt": 3}}
 B = {}
-BOUNDS_TEXT = ("net strings of <= s symbolic bytes (all 256 values) followed by <= r symbolic rest bytes; "
+BOUNDS_TEXT = ("text arguments to NS of <= txt symbolic characters over all of Unicode (ASCII, 2-, 3-, 4-octet "
+               "classes and surrogates, one path family per class) followed by <= 1 rest byte; net strings of <= s symbolic bytes (all 256 values) followed by <= r symbolic rest bytes; "
                "two consecutive net strings of <= s2 bytes each with count=2; multiple precision integers "
                "0 <= n < 2**bits (one path family per byte length, all values inside symbolic) followed by "
                "<= r rest bytes; two consecutive integers < 2**16 with count=2 and <= 1 rest byte")
@@ -25,9 +26,12 @@ OUTSIDE = ["the keys half of the property (Key.toString/fromString for RSA/DSA/E
            "fingerprints): it runs inside cryptography/OpenSSL, opaque to the solver - NOT claimed",
            "strings longer than s bytes and integers >= 2**bits (the code is uniform in the length: one "
            "struct length field, one slice)",
-           "str (text) arguments to NS (utf-8 encoding step) and negative integers (MP asserts number > 0)",
+           "negative integers (MP asserts number > 0); text arguments to NS longer than txt characters",
            "truncated or malformed input to getNS/getMP (only well-formed encodings + arbitrary rest)"]
-ASSUMPTIONS = ["cryptography.utils.int_to_bytes and int.from_bytes(.., 'big') are replaced in the lifted "
+ASSUMPTIONS = ["str.encode('utf-8') (C codec) is replaced in the lifted NS by a pure-Python encoder registered in "
+               "lbytes.CODECS; it and the harness's independent reference encoder are compared with the C codec on "
+               "every run (selftest: class boundaries, surrogates, a stride over all planes); replay uses the C codec",
+               "cryptography.utils.int_to_bytes and int.from_bytes(.., 'big') are replaced in the lifted "
                "namespace by pure-Python byte loops; both are compared with the C versions on a corpus on "
                "every run (selftest)",
                "LBytes / struct shim reproduce bytes / struct semantics (vlib.lbytes.selftest, every run) and "
@@ -79,9 +83,36 @@ def _ord(x):
     return ord(x)
 
 
+def _utf8_encode(text, errors="strict"):
+    """pure-Python str.encode('utf-8') for the lifted NS (the C codec would realise symbolic text):
+    returns the latin-1 text of the bytes; one path per character class, arithmetic inside"""
+    out = []
+    for c in text:
+        o = ord(c)
+        if o < 0x80:
+            out.append(c)
+        elif o < 0x800:
+            out.append(chr(0xC0 + o // 64))
+            out.append(chr(0x80 + o % 64))
+        elif o < 0x10000:
+            if 0xD800 <= o <= 0xDFFF:
+                raise UnicodeEncodeError("utf-8", "?", 0, 1, "surrogates not allowed")
+            out.append(chr(0xE0 + o // 4096))
+            out.append(chr(0x80 + (o // 64) % 64))
+            out.append(chr(0x80 + o % 64))
+        else:
+            out.append(chr(0xF0 + o // 262144))
+            out.append(chr(0x80 + (o // 4096) % 64))
+            out.append(chr(0x80 + (o // 64) % 64))
+            out.append(chr(0x80 + o % 64))
+    return "".join(out)
+
+
+lbytes.CODECS["utf-8"] = lbytes.CODECS["utf8"] = (_utf8_encode, None)
+
 L = lift.lift("twisted.conch.ssh.common", names=["NS", "getNS", "MP", "getMP"],
               overrides={"int_to_bytes": _int_to_bytes},
-              extra_shims={"int": _IntNS, "ord": _ord}, bitops=True)
+              extra_shims={"int": _IntNS, "ord": _ord}, bitops=True, encode_calls=True)
 
 
 def _val(body):
@@ -128,6 +159,58 @@ def ns_two(s1: str, s2: str, r: str) -> bool:
     # count=1 on the same stream leaves the second string untouched in the rest
     one = L.getNS(stream)
     return len(one) == 2 and t(one[0]) == s1 and t(one[1]) == t(L.NS(b(s2))) + r
+
+
+def _ref_utf8(s):
+    """harness-side reference encoding (written independently of the shim: RFC 3629 table, value
+    rebuilt from the continuation payloads); returns None when s contains a surrogate"""
+    out = ""
+    for c in s:
+        o = ord(c)
+        if o <= 0x7F:
+            out = out + c
+            continue
+        if 0xD800 <= o <= 0xDFFF:
+            return None
+        if o <= 0x7FF:
+            n, lead = 1, 0xC0
+        elif o <= 0xFFFF:
+            n, lead = 2, 0xE0
+        else:
+            n, lead = 3, 0xF0
+        tail = ""
+        v = o
+        for _ in range(n):
+            q = v // 64
+            tail = chr(0x80 + (v - 64 * q)) + tail
+            v = q
+        out = out + chr(lead + v) + tail
+    return out
+
+
+def ns_text(s: str, r: str) -> bool:
+    """
+    pre: len(s) <= B['txt'] and len(r) <= 1 and all(ord(c) < 256 for c in r)
+    post: _
+    """
+    # NS also accepts text: it is sent as its UTF-8 encoding, and the length prefix counts BYTES
+    want = _ref_utf8(s)
+    try:
+        enc = L.NS(s)
+    except UnicodeEncodeError:
+        cover("surrogate")
+        return want is None
+    if want is None:
+        return False
+    e = t(enc)
+    api.obs(e)
+    out = L.getNS(enc + b(r))
+    cover()
+    if e != "\0\0\0" + chr(len(want)) + want:
+        return False
+    if not (isinstance(out, tuple) and len(out) == 2):
+        return False
+    return t(out[0]) == want and t(out[1]) == r
 
 
 def mp_roundtrip(n: int, r: str) -> bool:
@@ -192,6 +275,8 @@ def _nbytes_shards(tier):
 HARNESSES = [
     H(ns_roundtrip, shards=lambda tier: [("len(s) == %d" % a,) for a in range(BOUNDS[tier]["s"] + 1)],
       timeout={"quick": 60, "thorough": 600}),
+    H(ns_text, shards=lambda tier: [("len(s) == %d" % a,) for a in range(BOUNDS[tier]["txt"] + 1)],
+      labels=("end", "surrogate"), timeout={"quick": 60, "thorough": 600}),
     H(ns_two,
       timeout={"quick": 60, "thorough": 600}),
     H(mp_roundtrip, shards=lambda tier: [("n < 2 ** 32",), ("n >= 2 ** 32",)],
@@ -202,6 +287,8 @@ HARNESSES = [
 # vectors: twisted.conch.test.test_ssh / RFC 4251 section 5 examples
 VECTORS = {
     "ns_roundtrip": [("", ""), ("abc", "xy"), ("\x00\xff\x80", "\x00"), ("testing", "")],
+    "ns_text": [("", ""), ("ab", "x"), ("caf\xe9", ""), ("\xe9", "\xff"), ("\u20ac\x7f", ""), ("\U0001f600a", "z"),
+                ("\x80\u07ff", ""), ("\u0800\uffff", "\x00"), ("\U00010000\U0010ffff", ""), ("\ud800", ""), ("a\udfff", "q")],
     "ns_two": [("a", "bc", "z"), ("", "", ""), ("\xff", "", "\x00")],
     "mp_roundtrip": [(0, ""), (1, "x"), (127, ""), (128, "ab"), (255, ""), (256, ""), (0x80, ""),
                      (0x9a378f9b2e332a7, ""), (32768, "\xff"), (8388608, ""), (16777215, "q")],
@@ -224,6 +311,24 @@ def selftest():
         n += 3
     assert bytes(_int_to_bytes(5, 4)) == real_itb(5, 4)
     assert _IntNS.from_bytes(lbytes.LBytes(""), "big") == int.from_bytes(b"", "big") == 0
+    cps = [0, 1, 0x7F, 0x80, 0x7FF, 0x800, 0xD7FF, 0xE000, 0xFFFF, 0x10000, 0x10FFFF] + list(range(0, 0x110000, 257))
+    for cp in cps:
+        if 0xD800 <= cp <= 0xDFFF:
+            continue
+        ch = chr(cp)
+        for txt in (ch, "a" + ch, ch + "\xe9"):
+            want = txt.encode("utf-8").decode("latin-1")
+            assert _utf8_encode(txt) == want and _ref_utf8(txt) == want, (cp, txt)
+            n += 2
+    for cp in (0xD800, 0xDBFF, 0xDC00, 0xDFFF):
+        assert _ref_utf8(chr(cp)) is None
+        for f in (_utf8_encode, lambda x: x.encode("utf-8")):
+            try:
+                f(chr(cp))
+                raise AssertionError("surrogate accepted")
+            except UnicodeEncodeError:
+                pass
+        n += 3
     for c in (b"a", b"\x00", b"\xff"):
         assert _ord(lbytes.LBytes(c)) == ord(c)
     n += 5
